@@ -93,6 +93,8 @@ def run_check(mod, tier: str, seed: int, budget_s: float | None = None, replay: 
         chunk = max(1, min(8, len(jobs) // (nproc * 8) or 1))
         for res in pool.imap(_worker, jobs, chunksize=chunk):
             results.append(res)
+            if os.environ.get("VERIF_VERBOSE"):
+                print(f"  case dt={res['dt']:.1f}s outcome={res.get('outcome')} stats={res.get('stats')} {json.dumps(res['case'], default=str)[:150]}", flush=True)
             if budget_s is not None and time.time() - t0 > budget_s:
                 capped = True
                 pool.terminate()
@@ -186,7 +188,7 @@ def run_check(mod, tier: str, seed: int, budget_s: float | None = None, replay: 
     print(f"{pid} tier={tier} seed={seed}: {json.dumps(summary, default=str)} wall={ev['wall_s']}s")
     if harness_errors:
         for case, a, b in harness_errors[:5]:
-            print(f"HARNESS-ERROR {pid}: case={json.dumps(case, default=str)[:400]}\n   first={a[:1]}\n   second={b[:1]}")
+            print(f"HARNESS-ERROR {pid}: case={json.dumps(case, default=str)[:300]}\n   first={str(a[:1])[:600]}\n   second={str(b[:1])[:300]}")
         return 2
     return 1 if n_viol else 0
 
